@@ -827,6 +827,7 @@ Section RHP.
       (forall x, Holds l' x <-> Holds l x /\ ekey x <> ekey e) /\
       S (occupied l') = occupied l.
   Proof.
+    clear swap_le swap_ge.
     intros [HL [Hwf Huq]] Hat Hocc. pose proof (at_some_lt _ _ _ Hat) as Hi.
     destruct (empty_slot_exists l Hocc) as [z [Hz Hzn]].
     assert (Hzi : z <> i) by (intros ->; congruence).
@@ -844,7 +845,7 @@ Section RHP.
       { intros b. unfold l0. rewrite wt_upd by assumption. destruct (Nat.eqb_spec b i) as [->|]; reflexivity. }
       rewrite !Hw. apply HL. assumption.
     - rewrite Hlen0. symmetry. apply pos_dist; assumption.
-    - destruct (dist n z i) eqn:Hd; [|lia]. apply dist_0 in Hd; auto. 
+    - destruct (dist n z i) eqn:Hd; [|lia]. apply dist_0 in Hd; [contradiction|assumption|assumption].
     - rewrite Hlen0. apply dist_lt; assumption.
     - rewrite Hat0. destruct (Nat.eqb_spec z i); [reflexivity|assumption].
     - pose proof (dist_lt n z i Hi Hz). lia.
